@@ -1343,6 +1343,22 @@ impl Session {
         let seg = self.ctl.seg_seed.load(Ordering::SeqCst);
         let delay = self.ctl.seg_delay_us.load(Ordering::SeqCst);
         let seg_max = self.ctl.seg_max.load(Ordering::SeqCst) as usize;
+        self.log.push(Ev::MockReply {
+            b: self.b,
+            sid: self.sid,
+            first_seq: self.group_first_seq,
+            seq: self.seq,
+            bytes: Arc::new(
+                if self.log.keep_bytes.load(Ordering::Relaxed) || bytes.len() < 512 {
+                    bytes[..limit].to_vec()
+                } else {
+                    bytes[..limit.min(64)].to_vec()
+                },
+            ),
+            client: self.group_client.clone(),
+            qid: self.group_qid.clone(),
+            complete: complete && fault == MID_NONE,
+        });
         let res = (|| -> std::io::Result<()> {
             if seg == 0 {
                 self.stream.write_all(&bytes[..limit])?;
@@ -1368,22 +1384,6 @@ impl Session {
             }
             self.stream.flush()
         })();
-        self.log.push(Ev::MockReply {
-            b: self.b,
-            sid: self.sid,
-            first_seq: self.group_first_seq,
-            seq: self.seq,
-            bytes: Arc::new(
-                if self.log.keep_bytes.load(Ordering::Relaxed) || bytes.len() < 512 {
-                    bytes[..limit].to_vec()
-                } else {
-                    bytes[..limit.min(64)].to_vec()
-                },
-            ),
-            client: self.group_client.clone(),
-            qid: self.group_qid.clone(),
-            complete: complete && fault == MID_NONE && res.is_ok(),
-        });
         if let Err(e) = res {
             return Err(Flow::Close(format!("write-error: {}", e.kind())));
         }
